@@ -6,6 +6,7 @@ import RigModel.Lemmas.C02Merge2
 import RigModel.Lemmas.C02Term
 import RigModel.Lemmas.C02Complete
 import RigModel.Lemmas.C02Init
+import RigModel.Lemmas.C02SA
 set_option linter.unusedSimpArgs false
 set_option linter.unusedVariables false
 
@@ -162,16 +163,50 @@ theorem randPlace_sound (vr : VR) (cs : List Constraint) (m : Machine) (picks : 
         | none => exact hall v (by simp [List.mem_filter, hv, hx])
         | some x => simp [hmono v x hx]
 
-/-- **Annealer: initial placement and the "trivial solution" return.**  For EVERY outcome of the
-two shuffles (`locs` = shuffled chips, `vs` = shuffled movable vertices, which must list every vertex
-that is not fixed), what `sa.place` returns when the kernel is not used is feasible; the same
-placement is the kernel's starting state otherwise. -/
-theorem saPlace_initial_sound (vr : VR) (cs : List Constraint) (m : Machine) (locs : List Chip)
-    (vs : List Vtx) (p : Placement) (fl : List Bool)
+/-- facts about the annealer's initial placement merged with the fixed vertices -/
+private theorem sa_initial_facts {vr' : VR} {cs' : List Constraint} {m m' m'' : Machine}
+    {fixed init : Placement} {locs : List Chip} {vs : List Vtx}
+    (hn' : (keys vr').Nodup) (hnn' : NonNegVR vr') (hcap : NonNegCap m)
+    (hP : prepareLoop vr' cs' m [] = .ok (m', fixed))
+    (hI : initialPlacement vr' m' locs vs = .ok (m'', init))
+    (hvs : ∀ v ∈ keys vr', v ∈ vs ∨ v ∈ keys fixed) :
+    Inv vr' m (fun c i => reserved cs' c i) m'' (mergeP init fixed) ∧
+    (∀ v c, aget fixed v = some c → aget (mergeP init fixed) v = some c) ∧
+    (∀ v ∈ keys vr', (aget (mergeP init fixed) v).isSome) := by
+  have I0 := inv_after_prepare hn' hnn' hcap hP
+  cases locs with
+  | nil => simp [initialPlacement] at hI
+  | cons c0 rest =>
+    simp only [initialPlacement] at hI
+    have hcap' : NonNegCap m' := fun c hc i => I0.nonneg c (by rw [← I0.ok_eq]; exact hc) i
+    obtain ⟨I2, hall2, _⟩ := initLoop_inv hn' hnn' _ _ _ _ _ _ _ (Inv.init vr' m' hcap') hI
+    have I := Inv.compose hnn' I0 I2
+    have hget := aget_mergeP fixed init
+    refine ⟨I, ?_, ?_⟩
+    · intro v c hv
+      rw [hget v I0.pnodup, hv]
+    · intro v hv
+      rw [hget v I0.pnodup]
+      rcases hvs v hv with h1 | h1
+      · cases hx : aget fixed v with
+        | none => exact hall2 v h1
+        | some c => rfl
+      · have := (aget_isSome_iff fixed v).2 h1
+        cases hx : aget fixed v with
+        | none => simp [hx] at this
+        | some c => rfl
+
+/-- **Annealer (Python kernel), whole run.**  For EVERY outcome of the two shuffles (`locs` =
+shuffled chips, `vs` = shuffled movable vertices, which must list every vertex that is not fixed)
+and, when the kernel is used, for EVERY list of proposals `steps` (source vertex, destination chip,
+accept bit - i.e. whatever the RNG draws, the temperature and the cost function are), a placement
+returned by `sa.place` is feasible.  `steps = none` is the "trivial solution" return. -/
+theorem saPlace_sound (vr : VR) (cs : List Constraint) (m : Machine) (locs : List Chip)
+    (vs : List Vtx) (steps : Option (List Step)) (p : Placement) (fl : List Bool)
     (wf : WF vr cs m) (hcons : Consistent vr cs) (hempty : EmptyOK vr cs m)
     (hvs : ∀ vr' cs' subs m' fixed, applySame vr cs = .ok (vr', cs', subs) →
       prepareLoop vr' cs' m [] = .ok (m', fixed) → ∀ v ∈ keys vr', v ∈ vs ∨ v ∈ keys fixed)
-    (h : saPlace vr cs m locs vs none = .ok (p, fl)) : Feasible vr cs m p := by
+    (h : saPlace vr cs m locs vs steps = .ok (p, fl)) : Feasible vr cs m p := by
   unfold saPlace at h
   split at h
   · rename_i h0
@@ -189,41 +224,86 @@ theorem saPlace_initial_sound (vr : VR) (cs : List Constraint) (m : Machine) (lo
       | error e => simp [hA, hP, bind, Except.bind] at h
       | ok r2 =>
         obtain ⟨m', fixed⟩ := r2
-        have I0 := inv_after_prepare hn' hnn' wf.nonnegCap hP
         cases hI : initialPlacement vr' m' locs vs with
         | error e => simp [hA, hP, hI, bind, Except.bind] at h
         | ok r3 =>
           obtain ⟨m'', init⟩ := r3
+          obtain ⟨I, hmono, hall⟩ := sa_initial_facts hn' hnn' wf.nonnegCap hP hI (hvs _ _ _ _ _ hA hP)
           simp only [hA, hP, hI, bind, Except.bind, pure, Except.pure] at h
-          cases hF : finalise subs (mergeP init fixed) with
-          | error e => simp [mergeP] at hF; simp [hF] at h
-          | ok pf =>
-            have hF' := hF
-            simp only [mergeP] at hF'
-            simp only [hF'] at h
-            injection h with h; injection h with h1 h2; subst h1
-            -- the initial placement loop
-            cases locs with
-            | nil => simp [initialPlacement] at hI
-            | cons c0 rest =>
-              simp only [initialPlacement] at hI
-              have hcap' : NonNegCap m' := fun c hc i => I0.nonneg c (by rw [← I0.ok_eq]; exact hc) i
-              obtain ⟨I2, hall2, _⟩ := initLoop_inv hn' hnn' _ _ _ _ _ _ _ (Inv.init vr' m' hcap') hI
-              have I := Inv.compose hnn' I0 I2
-              have hget := aget_mergeP fixed init
-              refine finish O (hcons _ _ _ hA) hP m'' I ?_ ?_ hF
-              · intro v c hv
-                rw [hget v I0.pnodup, hv]
-              · intro v hv
-                rw [hget v I0.pnodup]
-                rcases hvs _ _ _ _ _ hA hP v hv with h1 | h1
-                · cases hx : aget fixed v with
-                  | none => exact hall2 v h1
-                  | some c => rfl
-                · have := (aget_isSome_iff fixed v).2 h1
-                  cases hx : aget fixed v with
-                  | none => simp [hx] at this
-                  | some c => rfl
+          have hp0 : List.foldl (fun q (vc : Vtx × Chip) => aset q vc.1 vc.2) init fixed = mergeP init fixed := rfl
+          rw [hp0] at h
+          cases steps with
+          | none =>
+            simp only at h
+            cases hF : finalise subs (mergeP init fixed) with
+            | error e => simp [hF] at h
+            | ok pf =>
+              simp only [hF] at h
+              injection h with h; injection h with h1 h2; subst h1
+              exact finish O (hcons _ _ _ hA) hP m'' I hmono hall hF
+          | some sts =>
+            simp only at h
+            cases hL : mkL2v m'' (mergeP init fixed) with
+            | error e => simp [hL] at h
+            | ok l2v =>
+              simp only [hL] at h
+              cases hR : saRun vr' (keys fixed) sts { m := m'', p := mergeP init fixed, l2v := l2v } [] with
+              | error e => simp [hR] at h
+              | ok r4 =>
+                obtain ⟨s, fl'⟩ := r4
+                simp only [hR] at h
+                cases hF : finalise subs s.p with
+                | error e => simp [hF] at h
+                | ok pf =>
+                  simp only [hF] at h
+                  injection h with h; injection h with h1 h2; subst h1
+                  have J := SAInv.run hn' _ _ _ _ _ (SAInv.start (keys fixed) I hL) hR
+                  refine finish O (hcons _ _ _ hA) hP s.m (J.toInv I) ?_ ?_ hF
+                  · intro v c hv
+                    rw [J.fixedUnmoved v ((aget_isSome_iff fixed v).1 (by simp [hv]))]
+                    exact hmono v c hv
+                  · intro v hv
+                    exact (aget_isSome_iff _ _).2 ((J.pkeys v).2 ((aget_isSome_iff _ _).1 (hall v hv)))
+
+/-- **Annealer: initial placement and the "trivial solution" return.**  For EVERY outcome of the
+two shuffles (`locs` = shuffled chips, `vs` = shuffled movable vertices, which must list every vertex
+that is not fixed), what `sa.place` returns when the kernel is not used is feasible; the same
+placement is the kernel's starting state otherwise.  (Special case of `saPlace_sound`.) -/
+theorem saPlace_initial_sound (vr : VR) (cs : List Constraint) (m : Machine) (locs : List Chip)
+    (vs : List Vtx) (p : Placement) (fl : List Bool)
+    (wf : WF vr cs m) (hcons : Consistent vr cs) (hempty : EmptyOK vr cs m)
+    (hvs : ∀ vr' cs' subs m' fixed, applySame vr cs = .ok (vr', cs', subs) →
+      prepareLoop vr' cs' m [] = .ok (m', fixed) → ∀ v ∈ keys vr', v ∈ vs ∨ v ∈ keys fixed)
+    (h : saPlace vr cs m locs vs none = .ok (p, fl)) : Feasible vr cs m p :=
+  saPlace_sound vr cs m locs vs none p fl wf hcons hempty hvs h
+
+/-- **Annealing step invariant.**  `SAInv vr fixed p0 m0 tot s` says of a kernel state `s` (working
+machine, placements, location -> vertices lookup): for every working chip `c` and resource `i`,
+free[c][i] = tot c i - (sum of the demands of the vertices placed on c) and free[c][i] >= 0, where
+`tot` does not change over time; every fixed (location-constrained) vertex is where the initial
+placement `p0` put it; exactly the vertices of `p0` are placed, each on a working chip; the lookup
+`l2v[c]` lists exactly (and once) the vertices placed on `c`.  One `_step` of the Python kernel
+(`_get_candidate_swap`, the return-fit test, `_swap`, the revert) preserves it for EVERY proposal
+(source vertex, destination chip, accept bit). -/
+theorem saStep_inv (vr : VR) (fixed : List Vtx) (p0 : Placement) (m0 : Machine) (tot : Chip → Nat → Int)
+    (s s' : SA) (src : Vtx) (dst : Chip) (accept f : Bool)
+    (hn : (keys vr).Nodup) (I : SAInv vr fixed p0 m0 tot s)
+    (h : saStep vr fixed s src dst accept = .ok (s', f)) : SAInv vr fixed p0 m0 tot s' :=
+  SAInv.step hn I h
+
+/-- ... hence every run of the kernel, over EVERY proposal list -/
+theorem saRun_inv (vr : VR) (fixed : List Vtx) (p0 : Placement) (m0 : Machine) (tot : Chip → Nat → Int)
+    (steps : List Step) (s s' : SA) (fl fl' : List Bool)
+    (hn : (keys vr).Nodup) (I : SAInv vr fixed p0 m0 tot s)
+    (h : saRun vr fixed steps s fl = .ok (s', fl')) : SAInv vr fixed p0 m0 tot s' :=
+  SAInv.run hn steps s fl s' fl' I h
+
+/-- the state `PythonKernel.__init__` builds from a placement satisfying the placers' resource
+invariant satisfies the annealing invariant (so the hypothesis of `saStep_inv` is not vacuous) -/
+theorem saStart_inv (vr : VR) (m m2 : Machine) (rsv : Chip → Nat → Int) (p0 : Placement) (fixed : List Vtx)
+    (l2v : List (Chip × List Vtx)) (I : Inv vr m rsv m2 p0) (h : mkL2v m2 p0 = .ok l2v) :
+    SAInv vr fixed p0 m2 (fun c i => dem (cap m2 c) i + load vr p0 c i) { m := m2, p := p0, l2v := l2v } :=
+  SAInv.start fixed I h
 
 /-- **The oracle is the specification.**  The decidable check the harness runs on every placement
 returned by the implementation is equivalent to `Feasible`. -/
